@@ -313,7 +313,9 @@ class Bicomplex(object):
         return self.log() / np.log(2)
 
     def log1p(self):
-        return Bicomplex(np.log1p(self.mod_c()), self.arg_c1p())
+        z1, z2 = self.z1, self.z2
+        # log(mod_c(1 + z)) = 0.5 * log((1 + z1)**2 + z2**2)
+        return Bicomplex(0.5 * np.log1p(z1 * (2 + z1) + z2 * z2), self.arg_c1p())
 
     def expm1(self):
         expz1 = np.expm1(self.z1)
